@@ -2,6 +2,8 @@ package rules
 
 import (
 	"go/token"
+	"go/types"
+	"strings"
 
 	"golang.org/x/tools/go/ssa"
 
@@ -10,11 +12,11 @@ import (
 
 // C39 — converting GAS amounts between precisions never creates value or wraps (narrowing and direction clauses).
 func init() {
-	register(&Check{ID: "C39", Level: "other", Pkgs: []string{"./pkg/util/precision"}, Run: runC39})
+	register(&Check{ID: "C39", Level: "other", Pkgs: []string{"./pkg/util/precision", "./pkg/innerring/..."}, Run: runC39})
 }
 
 func runC39(p *core.Prog, r *core.Report) {
-	r.Explain = "Decides the narrowing and rounding-direction clauses structurally: (R1) every narrowing (*big.Int).Int64() of a converted amount is dominated by IsInt64()==true, or the conversion provably only divides; (R2) the conversion multiplies only when precision increases and divides when it decreases; toTarget / toBase pass the right direction; (R3) the narrowing division is big.Int's Euclidean Div, which rounds down for every sign (a truncating division would round a negative amount up), and products are not formed in a fixed-width type; Cross-reference only (outside the property's precision range 0..18): the factor is computed as int64(math.Pow10(exp)), which does not fit for a precision difference of 19 or more. Not covered: 'never yields more than the original' for every int64 (arithmetic over all values)."
+	r.Explain = "Decides the narrowing and rounding-direction clauses structurally: (R1) every narrowing (*big.Int).Int64() of a converted amount is dominated by IsInt64()==true, or the conversion provably only divides; (R2) the conversion multiplies only when precision increases and divides when it decreases; toTarget / toBase pass the right direction; (R3) the narrowing division is big.Int's Euclidean Div, which rounds down for every sign (a truncating division would round a negative amount up), and products are not formed in a fixed-width type; Cross-reference only (outside the property's precision range 0..18): the factor is computed as int64(math.Pow10(exp)), which does not fit for a precision difference of 19 or more. (R4) precision.Fixed8Converter is the only implementation of the processors' conversion interfaces in the module and the two processors store the converter they are given unchanged, so no second conversion layer can bend the amounts outside the ruled code. Not covered: 'never yields more than the original' for every int64 (arithmetic over all values)."
 	fns := p.FuncsIn("pkg/util/precision")
 	// ---------------- R1 narrowing
 	r1 := r.Rule("C39.R1", "Int64() of a converted amount only after IsInt64(), or when the conversion only divides", 1)
@@ -148,5 +150,70 @@ func runC39(p *core.Prog, r *core.Report) {
 				}
 			}
 		}
+	}
+	// ---------------- R4 nothing else stands between the processors and the ruled converter
+	r4 := r.Rule("C39.R4", "the only implementation of the processors' conversion interfaces (ToBalancePrecision / ToFixed8) in the module is precision.Fixed8Converter, and the processors store the converter they are given unchanged: no second conversion layer (clamp, cache, rounding) outside the ruled code", 3)
+	nImpl := 0
+	for path, pk := range p.All {
+		if !strings.HasPrefix(path, core.Mod) || pk.Types == nil {
+			continue
+		}
+		sc := pk.Types.Scope()
+		for _, nm := range sc.Names() {
+			tn, ok := sc.Lookup(nm).(*types.TypeName)
+			if !ok {
+				continue
+			}
+			if _, isIface := tn.Type().Underlying().(*types.Interface); isIface {
+				continue
+			}
+			for _, t := range []types.Type{tn.Type(), types.NewPointer(tn.Type())} {
+				ms := types.NewMethodSet(t)
+				found := ""
+				for _, m := range []string{"ToBalancePrecision", "ToFixed8"} {
+					if sel := ms.Lookup(nil, m); sel != nil || ms.Lookup(pk.Types, m) != nil {
+						found = m
+					}
+				}
+				if found == "" {
+					continue
+				}
+				nImpl++
+				full := core.Short(tn.Type().String())
+				r4.Check(full == "pkg/util/precision.Fixed8Converter", full+"#implements-"+found, p.Pos(tn.Pos()), "the ruled converter", full+" implements "+found+" but is not precision.Fixed8Converter: amounts pass through a conversion layer this check does not rule (a clamp or rounding there breaks exactness without touching the converter)")
+				break
+			}
+		}
+	}
+	if nImpl == 0 {
+		r.Fatalf("C39.R4: no implementation of ToBalancePrecision / ToFixed8 found")
+	}
+	// the processors keep the converter they were given
+	for _, ctor := range []string{"pkg/innerring/processors/neofs.New", "pkg/innerring/processors/balance.New"} {
+		fn := p.Func(ctor)
+		if fn == nil {
+			r.Fatalf("C39.R4: %s not found", ctor)
+			continue
+		}
+		ok, n := true, 0
+		for _, b := range fn.Blocks {
+			for _, in := range b.Instrs {
+				st, isSt := in.(*ssa.Store)
+				if !isSt {
+					continue
+				}
+				fa, isFA := st.Addr.(*ssa.FieldAddr)
+				if !isFA || !strings.HasSuffix(core.FieldAddrName(fa), ".converter") {
+					continue
+				}
+				n++
+				// the stored value is a field of the parameters struct (p.Converter), not something constructed here
+				_, path := core.AccessPath(st.Val)
+				if len(path) == 0 || path[len(path)-1] != "Converter" {
+					ok = false
+				}
+			}
+		}
+		r4.Check(ok && n > 0, ctor+"#converter-stored-unchanged", p.Pos(fn.Pos()), "the processor keeps the converter it was given", ctor+" does not store the given converter as it is (wrapped or replaced)")
 	}
 }
